@@ -41,11 +41,14 @@ TSweep == IsEvent("sweep") /\
 TBal == IsEvent("bal") /\ Balances(R.node, R.items)
 TState == IsEvent("state") /\ Checkpoint(R.h)
 TFinal == IsEvent("final") /\ Final(R)
-TSilent == l <= Len(Rec) /\ Rec[l].ev \in {"reload", "feerate", "rebroadcast", "bump", "ldk_log"} /\ l' = l + 1 /\ Silent
+TBump == IsEvent("bump") /\ Bump(R.node, R.claim, R.target, ToSet(R.ops))
+TRewind == IsEvent("rewind") /\ Rewind(R.h)
+TRebroadcast == IsEvent("rebroadcast") /\ Rebroadcast(R.node)
+TSilent == l <= Len(Rec) /\ Rec[l].ev \in {"reload", "feerate", "ldk_log"} /\ l' = l + 1 /\ Silent
 \* `panic` and `commit_unknown` have no action: a run containing one is rejected
 
 TraceNext == TOpen \/ TBcast \/ TCommit \/ TBlock \/ TIdle \/ TJump \/ TPreimage \/ TSpendable \/ TSweep
-             \/ TBal \/ TState \/ TFinal \/ TSilent
+             \/ TBal \/ TState \/ TFinal \/ TBump \/ TRewind \/ TRebroadcast \/ TSilent
 
 TraceSpec == TraceInit /\ [][TraceNext]_tvars
 
